@@ -20,8 +20,17 @@ from harness.props import c07
 Z_LIMIT = 6.2  # two-sided normal tail ~ 5.6e-10
 
 
-def shape_fails(k, n, reals, idxs):
-    """Algorithm L's recurrences on the real class (exact arithmetic, stand-in exp/log/floor)"""
+class Obs(dict):
+    """an observation that compares equal to every other observation with the same content (repeated sensor readings, heartbeat
+    records, low-cardinality features) but carries its arrival number"""
+    def __init__(self, content, tag):
+        super().__init__(content)
+        self.tag = tag
+
+
+def shape_fails(k, n, reals, idxs, pool=None):
+    """Algorithm L's recurrences on the real class (exact arithmetic, stand-in exp/log/floor); with `pool` the observations take
+    only that many distinct contents, so equal observations arrive again and again"""
     d = hrng.Scripted(pyrandom.Random(0), reals=list(reals), idxs=list(idxs))
     F = S.FakeNp
     with d.installed(), S.fake_np_in_uniform():
@@ -34,7 +43,7 @@ def shape_fails(k, n, reals, idxs):
         ri, ii = 2, 0
         ids = []
         for t in range(1, n + 1):
-            st.update({"id": t}, None)
+            st.update({"id": t} if pool is None else Obs({"reading": t % pool}, t), None)
             if t <= k:
                 ids.append(t)
             elif counter == t:
@@ -46,7 +55,7 @@ def shape_fails(k, n, reals, idxs):
                 W = W * F.exp(F.log(reals[ri]) / k)
                 counter = counter + F.floor(F.log(reals[ri + 1]) / F.log(1 - W)) + 1
                 ri += 2
-            got = [x["id"] for x in st.get_data()[0]]
+            got = [x["id"] if pool is None else getattr(x, "tag", "an object that is not one of the arrivals") for x in st.get_data()[0]]
             if got != ids or st._algo_wt != W or st._algo_l_counter != counter:
                 return (f"after arrival {t}: reservoir={got}, W={st._algo_wt}, next accepted={st._algo_l_counter}; "
                         f"Algorithm L gives reservoir={ids}, W={W}, next accepted={counter}")
@@ -104,6 +113,12 @@ def run(tier="quick", seed=0, replay=None):
         f = shape_fails(k, n, reals, idxs)
         if f:
             chk.violation("algorithm-L-shape", f"size {k}, scripted draws {desc['reals']}…: {f}", dict(desc, reals=[rs(r) for r in reals], idxs=idxs))
+        pool = rng.choice([1, 2, 3])
+        f = shape_fails(k, n, reals, idxs, pool=pool)
+        chk.stat("streams_with_equal_observations")
+        if f:
+            chk.violation("algorithm-L-shape", f"size {k}, stream of observations with only {pool} distinct content(s) (numbers below are arrival "
+                          f"numbers), scripted draws {desc['reals']}…: {f}", dict(desc, reals=[rs(r) for r in reals], idxs=idxs, pool=pool))
         targets = rng.random() < 0.5
         out, _ = c07.run_impl("uniform", k, targets, None, n, list(reals), list(idxs))
         reqs.append({"op": "storage", "kind": "uniform", "n": n, "targets": targets, "size": k,
